@@ -148,6 +148,7 @@ class Expect:
         self.either = False
         self.links_after_either = False
         self.link_either = False  # a connection whose acceptance the property does not fix
+        self.link_fail = None  # (verdict, reason) of the connection that ends the call
         self.done = False
         self.unknown = False  # the model cannot follow a successful outcome (e.g. unknown traced tail)
         self.new_nodes = []  # model node indexes created by a successful call, in adoption order
@@ -173,6 +174,7 @@ class Expect:
             return True
         self.done = True
         self.verdict, self.reason = verdict, reason
+        self.link_fail = (verdict, reason)
         if any(not self.m.is_w(n) for sub, pub in links for n in (sub[0], pub[0])):
             self.tags.add('via-future')
         if verdict == 'illegal' and self.nlinks:
